@@ -20,8 +20,9 @@
 (*            lead[b] foreign bytes at the front                           *)
 (*   F        ghost: the function message -> bytes the implementation      *)
 (*            exhibited (C06: one F per behaviour)                         *)
-(*   G        ghost: the function (type, bytes) -> message it exhibited    *)
-(*            (C15: decode depends on the bytes only)                      *)
+(*   G        ghost: the function (type, buffer content) -> outcome of a   *)
+(*            decode into a FRESH receiver (C15: decode depends on the     *)
+(*            bytes only)                                                  *)
 (*   src[o]   the bytes consumed by the decode that produced o (C08)       *)
 (*   last[o]  the bytes o's last encode appended, while o is unchanged     *)
 (*   part[b]  b holds a strict prefix of a valid encoding (C11)            *)
@@ -50,42 +51,6 @@ Init ==
   /\ ref = [bytes |-> <<>>, canon |-> FALSE]
   /\ big = Empty
   /\ bad = <<>> /\ nchk = 0
-
----------------------------------------------------------------------------
-(* Frame layout helpers over the bytes one frame encode appended.          *)
-FrameTypes == {T \in TypeNames : HasKind(T, "len")}
-CsumTypes == {T \in TypeNames : HasKind(T, "checksum")}
-LenName(T) == LET fs == FieldsOf(T) IN fs[CHOOSE i \in 1..Len(fs) : fs[i].kind = "len"].name
-CsumName(T) == LET fs == FieldsOf(T) IN fs[CHOOSE i \in 1..Len(fs) : fs[i].kind = "checksum"].name
-
-(* Header bytes before the length field as the pinned layout renders them  *)
-(* (C04/C05 are judged only on frames whose header conforms; otherwise the *)
-(* report belongs to C02).                                                 *)
-RECURSIVE HdrBytes(_, _, _, _)
-HdrBytes(T, E, v, i) ==
-  LET f == FieldsOf(T)[i] IN
-  IF f.kind = "len" THEN <<>>
-  ELSE (CASE f.kind = "int" -> Ord(E, v[f.name])
-          [] f.kind = "fixed" -> PadFixed(v[f.name], f.n, f.pad, f.left)) \o HdrBytes(T, E, v, i + 1)
-
-HeaderConforms(T, v, app) ==
-  /\ Len(app) >= BodyOff(T) + TrailerLen(T)
-  /\ IsPrefixOf(HdrBytes(T, EndianOf(T), v, 1), app)
-
-LenFieldOf(T, app) == Ord(EndianOf(T), SubSeq(app, LenOff(T) + 1, LenOff(T) + 4))
-CorrectLen(T, app) == Digits(Len(app) - BodyOff(T) - TrailerLen(T), 4)
-CsumFieldOf(T, app) == Ord(EndianOf(T), SubSeq(app, Len(app) - 3, Len(app)))
-CorrectCsum(T, app) == Alg(ChecksumAlg(T), Take(app, Len(app) - 4))
-
-(* w with the self-computed fields of a frame replaced by correct values   *)
-FixComputed(T, w) ==
-  LET w1 == IF T \in FrameTypes /\ Len(w) >= BodyOff(T) + TrailerLen(T)
-            THEN LET d == Ord(EndianOf(T), CorrectLen(T, w)) IN
-                 [i \in 1..Len(w) |-> IF i > LenOff(T) /\ i <= LenOff(T) + 4 THEN d[i - LenOff(T)] ELSE w[i]]
-            ELSE w
-  IN IF T \in CsumTypes /\ Len(w1) >= BodyOff(T) + 4
-     THEN Take(w1, Len(w1) - 4) \o Ord(EndianOf(T), CorrectCsum(T, w1))
-     ELSE w1
 
 ---------------------------------------------------------------------------
 (* Clause evaluation.  A clause result is a set of <<clause, deviation>>   *)
@@ -238,9 +203,13 @@ DecodeClauses(e) ==
            ELSE {}
    ELSE {})
   \cup
-  (* C15: the result depends on the bytes only *)
-  (IF P("C15") /\ e.res = "ok" /\ okshape /\ <<T, Take(pre, used)>> \in DOMAIN G /\ G[<<T, Take(pre, used)>>] # e.vpost
-   THEN {<<"C15.receiver-dependent", "none">>} ELSE {})
+  (* C15: the result depends on the bytes only: the same buffer content decoded into a fresh *)
+  (* and into a used receiver gives the same outcome, consumption and message               *)
+  (IF P("C15") /\ <<T, pre>> \in DOMAIN G /\ G[<<T, pre>>].res = "ok"
+   THEN LET g == G[<<T, pre>>] IN
+        IF e.res = "ok" /\ okshape /\ used = g.used /\ e.vpost = g.vpost THEN {}
+        ELSE {<<"C15.receiver-dependent", "none">>}
+   ELSE {})
 
 ObserveClauses(e) ==
   (* C16: the message is what the spec says it is - scribbling on buffers changed no object *)
@@ -352,8 +321,8 @@ Step(e) ==
                [] e.op = "write" /\ Len(Q(b)) = 0 -> Put(lead, b, Len(e.post))
                [] OTHER -> lead
   /\ F' = IF encOK /\ Len(pre) = 0 /\ v \notin DOMAIN F THEN Put(F, v, appended) ELSE F
-  /\ G' = IF decOK /\ e.tag # "into-dirty" /\ e.tag # "into-built" /\ <<e.t, Take(pre, used)>> \notin DOMAIN G
-          THEN Put(G, <<e.t, Take(pre, used)>>, e.vpost) ELSE G
+  /\ G' = IF e.op = "decode" /\ e.fresh /\ <<e.t, pre>> \notin DOMAIN G
+          THEN Put(G, <<e.t, pre>>, [res |-> e.res, used |-> used, vpost |-> e.vpost]) ELSE G
   /\ src' = CASE decOK -> Put(src, o, Take(pre, used))
               [] e.op \in {"decode", "new", "newzero", "copy", "mutate"} /\ o \in DOMAIN src -> Del(src, o)
               [] OTHER -> src
